@@ -27,5 +27,31 @@ package models
 
 // Wrapping a snapshot or an identity for the API only builds a value.
 //@ func NewLoadedBug
+//@   modifies nothing
 //@ func NewLoadedIdentity
 //@   modifies nothing
+//@   ensures result != nil
+
+// The lists the bug of a mutation payload serves (C20: the participants and actors connections page over them, and
+// report their length as the total count): one wrapper per participant (actor) of the snapshot - no more, no fewer,
+// none of them empty.
+//@ func (*loadedBug).Participants
+//@   props C20
+//@   nopanic
+//@   requires l != nil && l.Snapshot != nil
+//@   modifies nothing
+//@   opt trusted_frame
+//@   ensures [one-wrapper-per-participant] result1 == nil && len(result) == len(l.Snapshot.Participants) && (forall k int :: { result[k] } 0 <= k && k < len(result) ==> result[k] != nil)
+//@   loop 1
+//@     invariant fresh(res) && len(res) == len(l.Snapshot.Participants)
+//@     invariant forall k int :: { res[k] } 0 <= k && k <= rangeindex ==> res[k] != nil
+//@ func (*loadedBug).Actors
+//@   props C20
+//@   nopanic
+//@   requires l != nil && l.Snapshot != nil
+//@   modifies nothing
+//@   opt trusted_frame
+//@   ensures [one-wrapper-per-actor] result1 == nil && len(result) == len(l.Snapshot.Actors) && (forall k int :: { result[k] } 0 <= k && k < len(result) ==> result[k] != nil)
+//@   loop 1
+//@     invariant fresh(res) && len(res) == len(l.Snapshot.Actors)
+//@     invariant forall k int :: { res[k] } 0 <= k && k <= rangeindex ==> res[k] != nil
